@@ -8,7 +8,7 @@ from pv import common, threaded
 RULE = ("histories on a real Agent thread (InProcessCommunicationLayer) hosting 2-3 recording computations and a control "
         "computation, plus a second real agent whose Messaging forwards through the communication layer: 2-4 producer "
         "threads post 20-120 uniquely numbered messages each to random destinations with types in {10,15,20}, locally "
-        "or through the remote agent; in 60% of the histories the agent also runs a periodic action; once idle, 1-3 tail "
+        "or through the remote agent (one history in eight over a real HttpCommunicationLayer on 127.0.0.1); in 60% of the histories the agent also runs a periodic action; once idle, 1-3 tail "
         "messages are posted immediately before clean_shutdown(); one destination is registered late by the agent thread itself (earlier posts go "
         "through the retry path); in half the histories the agent thread starts only after a backlog exists; then "
         "clean_shutdown()+join(); perturbation: switch interval 1e-5, random sleeps around post_msg / next_msg / handlers "
@@ -37,8 +37,20 @@ def run_history(seed, lines=False):
             clk.rec("handle", self.name, sender, msg.content, threading.current_thread().name)
 
     late_name = "late"
-    A = Agent("A", InProcessCommunicationLayer())
-    B = Agent("B", InProcessCommunicationLayer())
+    # one history in eight uses the real HTTP layer on 127.0.0.1: remote posts then reach A's Messaging from its http thread
+    http = rng.random() < 0.125
+    layers = []
+    if http:
+        la, lb = threaded.free_http_layer(rng), threaded.free_http_layer(rng)
+        if la is None or lb is None:
+            http = False
+            for l in (la, lb):
+                if l is not None:
+                    l.shutdown()
+        else:
+            layers = [la, lb]
+    A = Agent("A", layers[0] if http else InProcessCommunicationLayer())
+    B = Agent("B", layers[1] if http else InProcessCommunicationLayer())
     dests = ["d%d" % i for i in range(rng.randint(2, 3))]
     comps = {}
     for d in dests:
@@ -176,8 +188,13 @@ def run_history(seed, lines=False):
             A.stop()
         except Exception:
             pass
+        for l in layers:
+            try:
+                l.shutdown()
+            except Exception:
+                pass
     return {"events": clk.events, "errors": errors, "dests": dests + [late_name], "producers": producers,
-            "injected": per.injected, "line_events": per.line_events, "start_late": start_late, "periodic": periodic}
+            "injected": per.injected, "line_events": per.line_events, "start_late": start_late, "periodic": periodic, "http": http}
 
 
 def analyse(h):
@@ -267,7 +284,8 @@ def analyse(h):
     deferred = sum(1 for mid, p in post.items() if p["dest"] == "late" and t_reg_end is not None and p["t"] < t_reg_end and mid in handle)
     order_sig = common.stable_hash([e[2] for e in ev if e[1] == "handle"][:400] if False else [(e[4]) for e in ev if e[1] == "handle"])
     stats = {"posted": len(post), "handled": sum(len(v) for v in handle.values()), "deferred": deferred, "mixed_backlog_dequeues": mixed,
-             "producers": len(h["producers"]), "order_sig": order_sig, "injected": h["injected"], "line_events": h["line_events"]}
+             "producers": len(h["producers"]), "order_sig": order_sig, "injected": h["injected"], "line_events": h["line_events"],
+             "http": 1 if h.get("http") else 0}
     return P, stats
 
 
@@ -283,6 +301,7 @@ def worker(job):
         R.case(stats.get("order_sig", str(i)), nontrivial,
                sample={"history_seed": hseed, "stats": {k: v for k, v in stats.items() if k != "order_sig"},
                        "first_events": [list(e) for e in h["events"][:25]]} if nontrivial and i % 8 == 0 else None)
+        R.count("histories_over_http", stats.get("http", 0))
         for k in ("posted", "handled", "deferred", "mixed_backlog_dequeues", "injected", "line_events"):
             R.count("messages_" + k if k in ("posted", "handled", "deferred") else k, stats.get(k, 0))
         seen = set()
